@@ -110,6 +110,11 @@ ASSUMPTIONS = [
     'pitch_models, player_stops_after_rest_delta) is reported under that '
     'model\'s own kind, which is what classify_known keys on; every other '
     'mismatch keeps the kind of the oracle clause.',
+    'Pitch modifiers: both SuperCollider\'s chain (every modifier always '
+    'applies) and the dispatch the port documents in sc3/seq/event.py '
+    '(modifiers apply together with the main key of their own stage: no '
+    'ctranspose on a degree; constant defaults when no main key is given) '
+    'are accepted.',
 ]
 
 TWO32 = 2 ** 32
@@ -380,6 +385,14 @@ def check_pitch(v, r, kind, actual, values, detail):
         return True
     for kinds, pitch in r.models:
         if any(ref.close(actual, x) for x in values(pitch)):
+            # the port documents its own dispatch (sc3/seq/event.py,
+            # PitchKeys: "for every main key with its own modifiers the
+            # other two can be calculated (without their modifiers); only
+            # one main key should be used at a time"): that reading of the
+            # chain is accepted beside SuperCollider's
+            kinds = [k for k in kinds if k != MODEL_MODS]
+            if not kinds:
+                return True
             for k in kinds:
                 v.fail(k, f'{kind}: {detail()}')
             return False
@@ -959,12 +972,6 @@ def classify_known(stage, case, viol):
                     and 'arrayed_param' in viol.detail:
                 return 'scale_key_becomes_arrayed_param'
         evs = _events_of(stage, case)
-        if kind == MODEL_MODS and any(
-                not any(m in k for m in ('freq', 'midinote', 'note'))
-                and ('ctranspose' in k if 'degree' in k else
-                     any(m in k for m in ref.PITCH_MODS) or sc is not None)
-                for k, sc in evs):
-            return 'pitch_modifiers_need_their_main_key'
         if kind == MODEL_TUNING and any(
                 sc is not None and not ref.tuning_is_equal(sc)
                 for k, sc in evs):
